@@ -375,7 +375,9 @@ def print_stmts(nodes, i, ind=1, opts=None, single=False):
         elif t == 'empty':
             out.append(p + ';')
         elif t == 'yield':
-            if opts.get('yform'):
+            if opts.get('async'):
+                out.append(p + 'log(7000 + (await AW(%d)));' % n['n'])
+            elif opts.get('yform'):
                 # the same statement with the yield at a deeper operand-stack position / inside another expression kind:
                 # the generator has to save and restore that part of the stack
                 y = '(yield %d)' % n['n']
@@ -521,6 +523,8 @@ def print_js(prog, probes=False, variant="base"):
         opts['deadcode'] = True
     if variant == "yform":
         opts['yform'] = True
+    if variant == "async":
+        opts['async'] = True
     body = '\n'.join(print_stmts(nodes, nodes[prog['root'] - 1]['a'], 1, opts))
     star = '*' if prog['gen'] else ''
     pre_body = ''
@@ -550,6 +554,15 @@ def print_js(prog, probes=False, variant="base"):
     if variant == "evalplace":
         fdef = 'var f = (0, eval)(%s);' % json.dumps('(' + fdef + ')')
     head = PRE + 'var T=true, Fa=false;\n'
+    if variant == "async":
+        # the generator body as an async function: `yield n` is `await AW(n)`, and the i-th driver call next(v) / throw(e) becomes
+        # the settlement of the i-th awaited operand (a promise, a plain value or a thenable, by position)
+        fdef = 'async function f(){\n' + body + '\n}'
+        return (head + fdef + '\nvar OPS=%s, ai=0;\n' % json.dumps([dict(op=o['op'], v=o['v']) for o in prog['ops']]) +
+                'function AW(n){ log(100000+n*10); ai++; var o=OPS[ai]; if(!o) return new Promise(function(){}); var k=(ai+n)%3;\n'
+                '  if (o.op==="throw") return k===0 ? Promise.reject(o.v) : k===1 ? {then:function(r,j){ j(o.v); }} : {then:function(r,j){ throw o.v; }};\n'
+                '  return k===0 ? Promise.resolve(o.v) : k===1 ? o.v : {then:function(r,j){ r(o.v); }}; }\n'
+                'f().then(function(v){ log(100000+(v===undefined?0:v)*10+1); }, function(e){ log(200000+E(e)); });\n')
     if prog['gen']:
         def call(i, o):
             c = 'R(function(){ return it.%s(%d) })' % (o['op'], o['v'])
@@ -566,6 +579,32 @@ def print_js(prog, probes=False, variant="base"):
                 'function R(g){ try { var r=g(); log(100000 + (r.value===undefined?0:r.value)*10 + (r.done?1:0)) } '
                 'catch(e){ log(200000+E(e)) } }\n' + drv)
     return head + fdef
+
+
+def async_twin(p, pid):
+    """the generator program whose behaviour an async function with the same body must reproduce (C09: "an async function is
+    equivalent to that state machine driven by promise reactions"): driver calls up to the first return(), starting with next();
+    None if the body delegates (yield*) or raises an uncatchable condition"""
+    if not p.get('gen') or any(n['t'] in ('ystar', 'fatal') or n.get('fk') for n in p['nodes']):
+        return None
+    ops = []
+    for o in p['ops']:
+        if o['op'] == 'return':
+            break
+        ops.append(dict(o, ctx=0))
+    if not ops or ops[0]['op'] != 'next':
+        return None
+    return dict(p, id=pid, ops=ops)
+
+
+def async_expected(log):
+    """the part of the generator driver's log an async function can show: everything up to the completion of the body"""
+    out = []
+    for e in log:
+        out.append(e)
+        if e >= 200000 or (e >= 100000 and e % 10 == 1):
+            break
+    return out
 
 
 def write_programs(progs, progs_path, srcs_path):
